@@ -9,8 +9,14 @@
 (***************************************************************************)
 EXTENDS FMOps
 
-Failing(cs) == SelectSeq([i \in DOMAIN cs |-> IF cs[i][2] THEN "" ELSE cs[i][1]],
+\* A clause is <<name, truth>> or <<name, truth, why>>: `why` names the deviation
+\* (a known finding modelled in the specification) that explains a failure, or "".
+Failing(cs) == SelectSeq([i \in DOMAIN cs |->
+                            IF cs[i][2] THEN ""
+                            ELSE IF Len(cs[i]) = 3 /\ cs[i][3] # "" THEN cs[i][1] \o "#" \o cs[i][3]
+                            ELSE cs[i][1]],
                          LAMBDA n : n # "")
+Why(label, explains) == IF explains THEN label ELSE ""
 Guarded(g, cs) == IF g THEN cs ELSE <<>>
 
 EmptyModel == [root |-> "", feats |-> <<>>, rels |-> <<>>, ctcs |-> <<>>]
@@ -81,7 +87,8 @@ ClassifyClauses(c) ==
      <<"C18.split.total",       prop => c.has_parts>>,
      <<"C18.split.shape",       prop /\ c.has_parts => \A i \in DOMAIN c.parts : WellShaped(c.parts[i])>>,
      <<"C18.split",             prop /\ c.has_parts /\ (\A i \in DOMAIN c.parts : WellShaped(c.parts[i]))
-                                   => ConjEquiv(t, c.parts)>>,
+                                   => ConjEquiv(t, c.parts),
+                                Why("dep-simplify", HasDepOps(t) /\ ConjEquiv(DepSimplify(t), c.parts))>>,
      <<"C18.features",          prop => (NoDup(c.features) /\ SetOf(c.features) = VarsOf(t))>> >>
 
 ---------------------------------------------------------------------------
@@ -177,7 +184,8 @@ ExecClauses(cur, e) ==
   \o Guarded(ok, OpValueClauses(m, op, e.args.f, R))
 
 ---------------------------------------------------------------------------
-ClassifyEventClauses(cur, e) == ClassifyClauses(e.ret)
+ClassifyEventClauses(cur, e) ==
+  << <<"C18.classify.sameast", e.ret.ast = e.args.ast>> >> \o ClassifyClauses(e.ret)
 
 Clauses(cur, e) ==
   CASE e.a \in BuilderActions -> BuildClauses(cur, e)
